@@ -1035,9 +1035,12 @@ class IMAPUserServer:
                     "Done waiting for mailbox '%s', took: %.3fs", name, duration
                 )
 
-            # Once the wait completes we are guaranteed that
-            # `self.active_mailboxes` has the key `name` in it.
+            # Once the wait completes `self.active_mailboxes` has the key
+            # `name` in it, unless instantiating the mailbox failed (eg: the
+            # folder was renamed or removed while it was being read.)
             #
+            if name not in self.active_mailboxes:
+                raise NoSuchMailbox(f"No such mailbox: '{name}'")
             if self.active_mailboxes[name].deleted:
                 raise NoSuchMailbox(f"'{name}' has been deleted.")
             return self.active_mailboxes[name]
@@ -1046,16 +1049,21 @@ class IMAPUserServer:
         # Instantiate the mailbox. Add it to `active_mailboxes`, signal any
         # other task waiting on the event that it can now get the mailbox.
         #
-        mbox = await Mailbox.new(
-            name,
-            self,
-        )
-        async with self.active_mailboxes_lock:
-            self.active_mailboxes[name] = mbox
-
-        async with self.activating_mailboxes_lock:
-            event.set()
-            del self.activating_mailboxes[name]
+        # Whether that works or not the event has to be set and removed,
+        # otherwise every later request for this mailbox waits for ever on an
+        # activation that is never going to finish.
+        #
+        try:
+            mbox = await Mailbox.new(
+                name,
+                self,
+            )
+            async with self.active_mailboxes_lock:
+                self.active_mailboxes[name] = mbox
+        finally:
+            async with self.activating_mailboxes_lock:
+                event.set()
+                del self.activating_mailboxes[name]
         duration = time.monotonic() - inst_start
         if duration > 3:
             logger.debug(
